@@ -44,8 +44,7 @@ h("c09_data_roundtrip_content_q", "fdl_telegram.rs", TG, ["C09"], timeout_s=600,
   obligation="wire bytes == reference frame; bytes_sent == telegram_len == frame length; nothing written beyond; decode gives identical header/payload and consumes exactly the frame; expects_reply per service")
 h("c09_data_roundtrip_content_t", "fdl_telegram.rs", TG, ["C09"], tier="thorough", timeout_s=3000, mem_gb=12, weight=2, functions=CODEC,
   bounds="payload 0..=64 bytes fully symbolic; otherwise as _q; unwind 79", obligation="as c09_data_roundtrip_content_q")
-h("c09_data_roundtrip_all_lengths_t", "fdl_telegram.rs", TG, ["C09"], tier="thorough", timeout_s=3600, mem_gb=16, weight=3, functions=CODEC,
-  bounds="every payload length 0..=246-#SAPs (LE <= 249) with one symbolic fill byte; unwind 100", obligation="wire bytes == reference frame, round trip, for all lengths up to the frame limit")
+# c09_data_roundtrip_all_lengths_t (every length 0..246 at once, symbolic): no verdict within 3600 s -> not registered; boundary layouts are covered by c09_roundtrip_len_*.
 
 for nm, desc in (("246", "246 bytes, no SAPs (LE = 249, the largest frame)"), ("245_dsap", "245 bytes with DSAP"), ("245_ssap", "245 bytes with SSAP"), ("244_both", "244 bytes with both SAPs"),
                  ("128_both", "128 bytes with both SAPs"), ("8", "8 bytes, no SAPs (SD3)"), ("7_dsap", "7 bytes with DSAP (LE = 11: SD3)"), ("9", "9 bytes, no SAPs (SD2 just above SD3)")):
@@ -227,7 +226,9 @@ h("c16_garbage_then_telegram_q", "phy_mod.rs", PM, ["C16"], panic_props=["C16", 
 # ---- C01 time lemmas, C03 watchdog ---------------------------------------------------------------------
 PAV = "fdl::parameters::verif"
 BAUDS = ["b9600", "b19200", "b31250", "b45450", "b93750", "b187500", "b500000", "b1500000", "b3000000", "b6000000", "b12000000"]
-QUICK_BAUDS = {"b19200", "b1500000", "b12000000"}
+QUICK_BAUDS = {"b19200"}
+h("c01_rate_table", "fdl_parameters.rs", PAV, ["C01"], timeout_s=900, functions=["Baudrate::{to_rate,bits_to_time}"],
+  bounds="ALL 11 baud rates (symbolic), bit counts 0..=64", obligation="to_rate == reference table; floor conversion exact for small bit counts at every rate (33-bit pause, 11-bit character)")
 for b in BAUDS:
     h("c01_bits_to_time_" + b, "fdl_parameters.rs", PAV, ["C01"], tier="quick" if b in QUICK_BAUDS else "thorough", timeout_s=900,
       functions=["Baudrate::{bits_to_time,to_rate}"], bounds="baud rate %s, ALL bit counts 0..=2^25" % b,
@@ -285,7 +286,7 @@ PROPERTIES = {
     "C09": {
         "claim": "Bounded: for every header (DA/SA 0..127, any SAP options, any function code) and every payload within the stated length/content bounds the real encoder's bytes equal an independent reference frame encoder, the reported lengths agree, and the real decoder returns the identical telegram consuming exactly the frame. Function codes: exhaustive over all bytes and all values.",
         "assumptions": ["addresses 0..=127 (bit 8 of the address octets is the extension bit)",
-                        "payload content fully symbolic only up to 8 (quick) / 64 (thorough) bytes; boundary layouts (246 no SAPs, 245 with one SAP, 244 with both, 128 with both, 7/8/9 around SD3) individually with concrete payload content; all lengths at once only in the thorough harness (no verdict within 1 h so far)"],
+                        "payload content fully symbolic only up to 8 (quick) / 64 (thorough) bytes; boundary layouts (246 no SAPs, 245 with one SAP, 244 with both, 128 with both, 7/8/9 around SD3) individually with concrete payload content; a single harness over all lengths at once gave no verdict within 1 h and is not registered"],
         "outside": ["content-dependent behaviour for payloads > 64 bytes (content only flows through a copy and the additive checksum)",
                     "callers passing pdu_len beyond the frame limit (serialize asserts LE <= 249)"],
     },
